@@ -126,13 +126,13 @@ class Call:
             if isinstance(o, dict):
                 return ("dict", tuple((k, snap(o[k])) for k in o))
             if isinstance(o, Bounds):
-                return ("Bounds", snap(o.lb), snap(o.ub), snap(o.keep_feasible))
+                return ("Bounds", snap(o.lb), snap(o.ub), snap(o.keep_feasible), tuple(sorted(vars(o))))
             if isinstance(o, LinearConstraint):
-                return ("LC", snap(o.A), snap(o.lb), snap(o.ub), snap(o.keep_feasible))
+                return ("LC", snap(o.A), snap(o.lb), snap(o.ub), snap(o.keep_feasible), tuple(sorted(vars(o))))
             if isinstance(o, NonlinearConstraint):
                 return ("NLC", id(o.fun), snap(o.lb), snap(o.ub), repr(o.jac), repr(o.hess),
                         snap(o.keep_feasible), repr(o.finite_diff_rel_step),
-                        repr(o.finite_diff_jac_sparsity))
+                        repr(o.finite_diff_jac_sparsity), tuple(sorted(vars(o))))
             if callable(o):
                 return ("callable", id(o))
             if isinstance(o, float):
